@@ -70,16 +70,23 @@ ENV = None
 
 
 class CoopFuture(concurrent.futures.Future):
+    E = None
+
     def result(self, timeout=None):
-        if threading.current_thread().name in ENV.S.threads:
-            ENV.S.point('future.result', enabled=self.done)
+        E = self.E or ENV
+        if threading.current_thread().name in E.S.threads:
+            E.S.point('future.result', enabled=self.done)
         return super().result(timeout)
 
 
 class CoopPool:
+    def __init__(self, E=None):
+        self.E = E
+
     def submit(self, fn, *args):
-        E = ENV
+        E = self.E or ENV
         fut = CoopFuture()
+        fut.E = E
         idx = len(E.workers) + 1
         name = 'W%d' % idx
         E.workers.append(name)
@@ -105,12 +112,13 @@ class CoopPool:
 class CoopLock:
     """threading.Lock with schedule points; `kind` decides the labels."""
 
-    def __init__(self, kind='loop'):
+    def __init__(self, kind='loop', E=None):
         self.kind = kind
         self.owner = None
+        self.E = E
 
     def __enter__(self):
-        E = ENV
+        E = self.E or ENV
         E.S.point(self.kind + '.acquire', enabled=lambda: self.owner is None)
         self.owner = threading.current_thread().name
         t = E.tid()
@@ -122,7 +130,7 @@ class CoopLock:
         return self
 
     def __exit__(self, *a):
-        E = ENV
+        E = self.E or ENV
         E.S.point(self.kind + '.release')
         t = E.tid()
         self.owner = None
@@ -134,8 +142,10 @@ class CoopLock:
 
 
 class LockTable(dict):
+    E = None
+
     def __getitem__(self, k):
-        E = ENV
+        E = self.E or ENV
         E.S.point('locktable.get')
         t = E.tid()
         second = E.create_holder == threading.current_thread().name
@@ -153,7 +163,7 @@ class Target(BLoop):
     logged; a second thread entering is what asyncio reports as 'already running'."""
 
     def is_running(self):
-        E = ENV
+        E = getattr(self, 'E', None) or ENV
         me = threading.current_thread().name
         if (me.startswith('C') and E.S.threads.get(me) and getattr(E, 'dispatching', {}).get(me)
                 and sys._getframe(1).f_code.co_name == 'ensure_aw'):
@@ -166,7 +176,7 @@ class Target(BLoop):
         return super().is_running()
 
     def is_closed(self):
-        E = ENV
+        E = getattr(self, 'E', None) or ENV
         me = threading.current_thread().name
         b = super().is_closed()
         if (me.startswith('C') and getattr(E, 'dispatching', {}).get(me)
@@ -177,7 +187,7 @@ class Target(BLoop):
         return b
 
     def run_forever(self):
-        E = ENV
+        E = getattr(self, 'E', None) or ENV
         t = E.tid()
         E.running_threads += 1
         E.max_running = max(E.max_running, E.running_threads)
@@ -209,11 +219,15 @@ def run_case(case, seed, pct=0, choices=None):
     ENV = E
     saved = {k: getattr(A, k) for k in ('_CROSS_LOOP_POOL', '_LOOP_LOCKS', '_LOOP_LOCKS_CREATE_LOCK', 'Lock', 'sleep',
                                          'run_coro_ts')}
-    A._CROSS_LOOP_POOL = CoopPool()
+    A._CROSS_LOOP_POOL = CoopPool(E)
     A._LOOP_LOCKS = LockTable()
-    A._LOOP_LOCKS_CREATE_LOCK = CoopLock('create')
-    A.Lock = lambda: CoopLock('loop')
-    A.sleep = lambda d: S.point('spin.sleep')
+    A._LOOP_LOCKS.E = E
+    A._LOOP_LOCKS_CREATE_LOCK = CoopLock('create', E)
+    A.Lock = lambda: CoopLock('loop', E)
+    # `sleep(0)` is a yield: the thread runs again only when nobody else can (a strict-priority schedule would
+    # otherwise let the spin-wait of loop_in_thread starve the very thread it waits for)
+    A.sleep = lambda d: (S.point('spin.sleep', yield_=True) if not d else
+                         S.point('spin.sleep', enabled=lambda: False, deadline=S.vt + d))
 
     def rcts(coro, loop):
         me = threading.current_thread().name
@@ -223,6 +237,7 @@ def run_case(case, seed, pct=0, choices=None):
         return saved['run_coro_ts'](coro, loop)
     A.run_coro_ts = rcts
     T = Target(S)
+    T.E = E
     mode = case['mode']
     res = {}
     info = {}
